@@ -194,6 +194,9 @@ func cmdRun(args []string) int {
 		for _, c := range p.Fixed() {
 			cases = append(cases, c)
 		}
+		if sw, ok := p.(Sweeper); ok {
+			cases = append(cases, sw.Sweep(*tier, *seed)...)
+		}
 		n := p.N(*tier)
 		if *nOverride > 0 {
 			n = *nOverride
@@ -364,7 +367,24 @@ func cmdRun(args []string) int {
 }
 
 // runCase asks the model, then runs the implementation side under recover.
+// Sweeper adds a systematic (seed-offset or exhaustive) family of cases to a run.
+type Sweeper interface {
+	Sweep(tier string, seed uint64) []map[string]any
+}
+
+// Preparer lets a property complete the input sent to the model with what the implementation
+// produced upstream of the function under scrutiny (e.g. the journal handed to ExportToCsv).
+type Preparer interface {
+	Prepare(in map[string]any) map[string]any
+}
+
 func runCase(p Prop, d *Driver, in map[string]any) (v Verdict, errStr string) {
+	if pp, ok := p.(Preparer); ok {
+		func() {
+			defer func() { recover() }()
+			in = deepCopyJSON(pp.Prepare(in)).(map[string]any)
+		}()
+	}
 	model, err := d.Ask(in)
 	if err != nil {
 		return Verdict{}, err.Error()
